@@ -19,12 +19,16 @@ RULE  = ("one case = (experiment spec: env groups incl. shared chunk()/cache() p
 PLAN  = {"quick":    {"shards": 8, "parallel": 4, "cases": 24,   "timeout": 1500},
          "thorough": {"shards": 8, "parallel": 4, "cases": 480,  "timeout": 7000}}
 REQUIRED = ["oracle.rebuild-same", "oracle.inproc-chunked-same", "oracle.multiproc-same", "observed.multiproc-evaluations",
-            "observed.runs-with-2+-worker-pids", "observed.arrival-orders", "oracle.multiproc-after-earlier-run"]
+            "observed.runs-with-2+-worker-pids", "observed.arrival-orders", "oracle.multiproc-after-earlier-run",
+            "observed.cases-with-experiment-seed-0"]
 ASSUMPTIONS = ["only deterministic picklable components; timing columns excluded", "processes <= 6",
                "seed=None (time seeded) filters are not generated"]
 
-def gen_case(rng):
+def gen_case(rng, force_seed0=False):
     spec = X.gen_spec(rng)
+    if force_seed0:
+        # the experiment seed 0 (falsy) with consumers of the experiment seed: a PMF learner under an unseeded SequentialCB
+        spec["seed"] = 0; spec["lrns"][0]["kind"] = "stateful-pmf"; spec["vals"][0]["kind"] = "cb"
     cfgs = []
     cfgs.append([1, 0, rng.choice([1, 2, 3, 5])])                     # in-process, chunks split
     for _ in range(3):
@@ -101,7 +105,8 @@ def run_shard(ctx):
     workdir = tempfile.mkdtemp(prefix=f"vf-c01-{ctx.shard}-")
     try:
         for i in range(ctx.n):
-            case = gen_case(ctx.rng)
+            case = gen_case(ctx.rng, force_seed0=(i == 0))
+            if case["spec"]["seed"] == 0: ctx.count("observed.cases-with-experiment-seed-0")
             try:
                 v = check_case(case, ctx, workdir)
             except Exception as e:
